@@ -80,6 +80,7 @@ mutual
     | .list [.atom "tick", c, k] => do pure (.tick (← c.nat?) (← k.nat?))
     | .list [.atom "grp", l] => do pure (.group (← toList l))
     | .list [.atom "sub", l] => do pure (.subshell (← toList l))
+    | .list [.atom "async", l] => do pure (.asyncWait (← toList l))
     | .list [.atom "if", c, b, .list elifs] => do
         pure (.ifc (← toList c) (← toList b) (← toElifs elifs) none)
     | .list [.atom "if", c, b, .list elifs, e] => do
